@@ -681,6 +681,7 @@ def oracle_file(spec, tr, complete, mapped, o, man):
             bad.append("atom %d carries number %d" % (i + 1, a[3]))
             return bad
     at = 0
+    fresh = {}
     for mi, (t, rids, pos) in enumerate(expected):
         sp = spec["species"][t]
         m = len(sp["aa_atoms"])
@@ -711,6 +712,18 @@ def oracle_file(spec, tr, complete, mapped, o, man):
             if not dev <= HALF_UNIT:
                 bad.append("molecule %d (%s): written coordinates differ from exchange_map(mol) by %.3g nm" %
                            (mi, sp["name"], dev))
+                return bad
+            # ... and the species' map is the one for the scale factor requested last: a map built here from the
+            # same two molecules with that factor must give the same molecule
+            if t not in fresh:
+                from gaddlemaps import ExchangeMap
+                al = man.molecule_correspondence[sp["name"]]
+                fresh[t] = ExchangeMap(al.start, al.end, mapped[t])
+            fpos = np.array(fresh[t](input_molecule(man, sp["name"], pos)).atoms_positions, dtype=float)
+            dev = np.abs(q - fpos).max()
+            if not dev <= HALF_UNIT:
+                bad.append("molecule %d (%s): written coordinates differ by %.3g nm from the map of the two attached "
+                           "molecules with the scale factor requested last (%.4g)" % (mi, sp["name"], dev, mapped[t]))
                 return bad
         else:
             s = mapped[t]
